@@ -175,3 +175,239 @@ Proof.
   - unfold strict_desc_start. apply pairwiseP_rev. exact St.
   - apply mw_far_apart; assumption.
 Qed.
+
+(* ------------------------------------------------------------------------------------ *)
+(* (C) expression trees with Buf and MergeW nodes *)
+
+(* the stream invariant (the order / well-formedness part of Assembly.stream_ok) *)
+Definition sok (xs : list ivl) : Prop := Forall wf_ivl xs /\ Forall canon_ivl xs /\ sorted_start xs.
+
+(* the windows an expression hands down to its operands: a buffer widens them; all of them must
+   stay well formed (strictly between the sentinels) *)
+Fixpoint wins (e : expr) (a b : option Z) {struct e} : Prop :=
+  wf_win a b /\
+  match e with
+  | Stored _ => True
+  | Solid => True
+  | Union es => (fix go (l : list expr) : Prop :=
+                   match l with [] => True | x :: r => wins x a b /\ go r end) es
+  | Inter es => (fix go (l : list expr) : Prop :=
+                   match l with [] => True | x :: r => wins x a b /\ go r end) es
+  | Diff s subs => wins s a b /\
+                   (fix go (l : list expr) : Prop :=
+                      match l with [] => True | x :: r => wins x a b /\ go r end) subs
+  | Compl s => wins s a b
+  | Filt s _ => wins s a b
+  | Buf s before after => wins s (addO a (- after)) (addO b before)
+  | MergeW s _ => wins s a b
+  end.
+
+Lemma wins_wf_win e a b : wins e a b -> wf_win a b.
+Proof. destruct e; cbn [wins]; tauto. Qed.
+
+Lemma wins_go_Forall (es : list expr) a b :
+  (fix go (l : list expr) : Prop := match l with [] => True | x :: r => wins x a b /\ go r end) es
+  <-> Forall (fun s => wins s a b) es.
+Proof.
+  induction es as [|x r IH]; [split; [constructor|exact (fun _ => I)]|].
+  rewrite IH. split; [intros [A B]; constructor; assumption|intro H; inversion H; subst; split; assumption].
+Qed.
+
+Lemma wins_union es a b : wins (Union es) a b <-> wf_win a b /\ Forall (fun s => wins s a b) es.
+Proof. cbn [wins]. rewrite wins_go_Forall. tauto. Qed.
+Lemma wins_inter es a b : wins (Inter es) a b <-> wf_win a b /\ Forall (fun s => wins s a b) es.
+Proof. cbn [wins]. rewrite wins_go_Forall. tauto. Qed.
+Lemma wins_diff s subs a b :
+  wins (Diff s subs) a b <-> wf_win a b /\ wins s a b /\ Forall (fun u => wins u a b) subs.
+Proof. cbn [wins]. rewrite wins_go_Forall. tauto. Qed.
+Lemma wins_buf s before after a b :
+  wins (Buf s before after) a b <-> wf_win a b /\ wins s (addO a (- after)) (addO b before).
+Proof. cbn [wins]. tauto. Qed.
+
+(* without buffers every well-formed window will do *)
+Fixpoint nobuf (e : expr) : bool :=
+  match e with
+  | Stored _ => true
+  | Solid => true
+  | Union es => forallb nobuf es
+  | Inter es => forallb nobuf es
+  | Diff s subs => nobuf s && forallb nobuf subs
+  | Compl s => nobuf s
+  | Filt s _ => nobuf s
+  | Buf _ _ _ => false
+  | MergeW s _ => nobuf s
+  end.
+
+Lemma nobuf_wins e : nobuf e = true -> forall a b, wf_win a b -> wins e a b.
+Proof.
+  induction e as [evs| |es IH|es IH|s subs IHs IHsubs|s IHs|s f IHs|s x y IHs|s g IHs] using expr_ind';
+    intros H a b Hw; cbn [nobuf] in H; try discriminate H.
+  - cbn [wins]. tauto.
+  - cbn [wins]. tauto.
+  - apply wins_union. split; [exact Hw|]. apply Forall_forall. intros s Hs.
+    exact (proj1 (Forall_forall _ _) IH s Hs (proj1 (forallb_forall _ _) H s Hs) a b Hw).
+  - apply wins_inter. split; [exact Hw|]. apply Forall_forall. intros s Hs.
+    exact (proj1 (Forall_forall _ _) IH s Hs (proj1 (forallb_forall _ _) H s Hs) a b Hw).
+  - apply andb_true_iff in H as [H1 H2]. apply wins_diff. split; [exact Hw|]. split; [exact (IHs H1 a b Hw)|].
+    apply Forall_forall. intros u Hu.
+    exact (proj1 (Forall_forall _ _) IHsubs u Hu (proj1 (forallb_forall _ _) H2 u Hu) a b Hw).
+  - cbn [wins]. split; [exact Hw|exact (IHs H a b Hw)].
+  - cbn [wins]. split; [exact Hw|exact (IHs H a b Hw)].
+  - cbn [wins]. split; [exact Hw|exact (IHs H a b Hw)].
+Qed.
+
+Lemma good_nobuf env e : Assembly.good env e -> nobuf e = true.
+Proof.
+  induction e as [evs| |es IH|es IH|s subs IHs IHsubs|s IHs|s f IHs|s x y IHs|s g IHs] using expr_ind';
+    intro Hg; inv_good Hg; cbn [nobuf]; try reflexivity.
+  - apply forallb_forall. intros s Hs. rewrite Forall_forall in IH, Hgs. auto.
+  - apply forallb_forall. intros s Hs. rewrite Forall_forall in IH, Hgs. auto.
+  - rewrite (IHs Hgs). cbn [andb]. apply forallb_forall. intros u Hu. rewrite Forall_forall in IHsubs, Hgsubs. auto.
+  - exact (IHs Hgs).
+Qed.
+
+(* internally non-overlapping streams, on the windows that can reach the operand *)
+Definition dj2 (env : fenv) (s : expr) : Prop :=
+  forall a b, wins s a b -> disjoint_sorted (fetch env s a b false).
+
+(* a buffered event must stay strictly between the sentinels *)
+Definition shift_safe (before after : Z) (x : ivl) : Prop :=
+  (forall z, st x = Some z -> NEG_INF < z - before) /\ (forall z, en x = Some z -> z + after < POS_INF).
+Definition buf_safe (env : fenv) (s : expr) (before after : Z) : Prop :=
+  forall a b, wins s a b -> Forall (shift_safe before after) (fetch env s a b false).
+
+(* the class: [good] (Proofs/Assembly.v) at the leaves, every operator above, buffer and
+   merge_within anywhere *)
+Inductive good2 (env : fenv) : expr -> Prop :=
+| g2_good e : Assembly.good env e -> good2 env e
+| g2_union es : Forall (good2 env) es -> good2 env (Union es)
+| g2_filt s f : good2 env s -> good2 env (Filt s f)
+| g2_compl s : good2 env s -> good2 env (Compl s)
+| g2_inter es : es <> [] -> Forall (good2 env) es -> Forall (dj2 env) es -> good2 env (Inter es)
+| g2_diff s subs : good2 env s -> Forall (good2 env) subs -> dj2 env s -> good2 env (Diff s subs)
+| g2_buf s before after : good2 env s -> 0 <= before -> 0 <= after -> buf_safe env s before after ->
+                          good2 env (Buf s before after)
+| g2_mw s g : good2 env s -> 0 <= g -> good2 env (MergeW s g).
+
+Lemma good_sok env e a b : Assembly.good env e -> wf_win a b -> sok (fetch env e a b false).
+Proof. intros Hg Hw. destruct (fetch_ok env e Hg a b Hw) as (S1 & S2 & S3 & _). repeat split; assumption. Qed.
+
+(* a shifted event *)
+Lemma buf_shift_ok before after x :
+  0 <= before -> 0 <= after -> wf_ivl x -> shift_safe before after x ->
+  wf_ivl (buf_shift before after x) /\ canon_ivl (buf_shift before after x) /\ no_underflow before x.
+Proof.
+  intros Hb Ha Hw [S1 S2]. pose proof (buf_shift_pos_len before after x Hb Ha Hw) as Hp.
+  destruct Hw as (W1 & W2 & W3 & W4 & W5). split; [|split].
+  - unfold wf_ivl. split; [|split; [exact Hp|split; [|split]]].
+    + destruct (st x) as [z|] eqn:Es.
+      * rewrite fstart_buf_shift by congruence. rewrite (fstart_some x z Es). specialize (S1 z eq_refl). lia.
+      * rewrite fstart_buf_shift_none by exact Es. lia.
+    + destruct (en x) as [z|] eqn:Ee.
+      * rewrite fend_buf_shift by congruence. rewrite (fend_some x z Ee). specialize (S2 z eq_refl). lia.
+      * rewrite fend_buf_shift_none by exact Ee. lia.
+    + destruct (st x) as [z|] eqn:Es.
+      * rewrite fstart_buf_shift by congruence. lia.
+      * rewrite fstart_buf_shift_none by exact Es. unfold NEG_INF, POS_INF. lia.
+    + destruct (en x) as [z|] eqn:Ee.
+      * rewrite fend_buf_shift by congruence. lia.
+      * rewrite fend_buf_shift_none by exact Ee. unfold NEG_INF, POS_INF. lia.
+  - split; [rewrite buf_shift_st|rewrite buf_shift_en].
+    + destruct (st x) as [z|]; cbn [addO]; [|discriminate]. specialize (S1 z eq_refl).
+      intro H. injection H as H. lia.
+    + destruct (en x) as [z|]; cbn [addO]; [|discriminate]. specialize (S2 z eq_refl).
+      intro H. injection H as H. lia.
+  - intros z Hz. specialize (S1 z Hz). lia.
+Qed.
+
+Lemma buf_map_sok before after xs :
+  0 <= before -> 0 <= after -> sok xs -> Forall (shift_safe before after) xs ->
+  sok (map (buf_shift before after) xs).
+Proof.
+  intros Hb Ha (W & C & S) Hs. rewrite Forall_forall in W, Hs.
+  assert (H : forall x, In x xs -> wf_ivl (buf_shift before after x) /\ canon_ivl (buf_shift before after x) /\
+                                   no_underflow before x).
+  { intros x Hx. apply buf_shift_ok; auto. }
+  split; [|split].
+  - apply Forall_map_intro, Forall_forall. intros x Hx. apply (H x Hx).
+  - apply Forall_map_intro, Forall_forall. intros x Hx. apply (H x Hx).
+  - apply buffer_sorted_start; [exact Hb| |exact S]. apply Forall_forall. intros x Hx. apply (H x Hx).
+Qed.
+
+Lemma inter_has_sel (es : list expr) : es <> [] ->
+  has_sel (emit_sel (map is_mask es)) (length (map (fun s : expr => (nil : list ivl)) es)).
+Proof.
+  intro Hne. rewrite map_length, <- (map_length is_mask). apply emit_sel_has.
+  destruct es; [congruence|discriminate].
+Qed.
+
+(* the stream invariant for the whole class, every reachable window *)
+Theorem fetch_ok2 env e :
+  good2 env e -> forall a b, wins e a b -> sok (fetch env e a b false).
+Proof.
+  induction e as [evs| |es IH|es IH|s subs IHs IHsubs|s IHs|s f IHs|s x y IHs|s g IHs] using expr_ind';
+    intros Hg a b Hw; pose proof (wins_wf_win _ a b Hw) as Hwin;
+    inversion Hg as [e0 Hgd|es0 Hall|s0 f0 Hs|s0 Hs|es0 Hne Hall Hdj|s0 subs0 Hs Hsubs Hdj
+                     |s0 bf af Hs Hb Ha Hsafe|s0 g0 Hs Hg0]; subst;
+    try (apply good_sok; assumption).
+  - (* Union *)
+    apply wins_union in Hw as [_ Hws].
+    assert (Hok : forall s, In s es -> sok (fetch env s a b false)).
+    { intros s Hs. rewrite Forall_forall in IH, Hall, Hws. exact (IH s Hs (Hall s Hs) a b (Hws s Hs)). }
+    rewrite fetch_union. split; [|split].
+    + apply Forall_merge, Forall_map_intro, Forall_forall. intros s Hs. apply (Hok s Hs).
+    + apply Forall_merge, Forall_map_intro, Forall_forall. intros s Hs. apply (Hok s Hs).
+    + apply merge_key_sorted_start, Forall_map_intro, Forall_forall. intros s Hs. apply (Hok s Hs).
+  - (* Inter *)
+    apply wins_inter in Hw as [_ Hws].
+    assert (Hok : forall s, In s es -> sok (fetch env s a b false) /\ disjoint_sorted (fetch env s a b false)).
+    { intros s Hs. rewrite Forall_forall in IH, Hall, Hws, Hdj.
+      split; [exact (IH s Hs (Hall s Hs) a b (Hws s Hs))|exact (Hdj s Hs a b (Hws s Hs))]. }
+    destruct es as [|e0 es]; [congruence|]. rewrite fetch_inter.
+    set (ES := e0 :: es) in *. set (streams := map (fun s => fetch env s a b false) ES).
+    destruct (inter_streams_ok streams (emit_sel (map is_mask ES))) as (R1 & R2 & R3 & _).
+    + unfold streams, ES. cbn [map]. discriminate.
+    + unfold streams. rewrite map_length, <- (map_length is_mask). apply emit_sel_has.
+      unfold ES. cbn [map]. discriminate.
+    + apply Forall_map_intro, Forall_forall. intros s Hs. apply (Hok s Hs).
+    + apply Forall_map_intro, Forall_forall. intros s Hs. apply (Hok s Hs).
+    + apply Forall_map_intro, Forall_forall. intros s Hs. apply (Hok s Hs).
+    + apply Forall_map_intro, Forall_forall. intros s Hs. apply (Hok s Hs).
+    + repeat split; assumption.
+  - (* Diff *)
+    apply wins_diff in Hw as (_ & Hw1 & Hws).
+    destruct (IHs Hs a b Hw1) as (S1 & S2 & S3). pose proof (Hdj a b Hw1) as Hd.
+    destruct subs as [|u us]; [rewrite fetch_diff_nil; repeat split; assumption|].
+    rewrite fetch_diff. set (US := u :: us) in *.
+    assert (Hok : forall v, In v US -> sok (fetch env v a b false)).
+    { intros v Hv. rewrite Forall_forall in IHsubs, Hsubs, Hws. exact (IHsubs v Hv (Hsubs v Hv) a b (Hws v Hv)). }
+    set (ss := map (fun v => fetch env v a b false) US).
+    assert (Hm : merged_ok ss).
+    { apply merged_ok_intro; unfold ss; apply Forall_map_intro, Forall_forall; intros v Hv; apply (Hok v Hv). }
+    assert (Hfr : forall f, In f (diff_sweep (fetch env s a b false) ss) -> wf_ivl f /\ canon_ivl f).
+    { intros f Hf. destruct (diff_sweep_fragments _ _ S1 S2 Hm f Hf) as (x & Hx & Hfx).
+      eapply frag_of_wf; [|exact Hfx]. exact (proj1 (Forall_forall _ _) S1 x Hx). }
+    split; [apply Forall_forall; intros f Hf; exact (proj1 (Hfr f Hf))|].
+    split; [apply Forall_forall; intros f Hf; exact (proj2 (Hfr f Hf))|].
+    apply diff_sweep_sorted; assumption.
+  - (* Compl *)
+    cbn [wins] in Hw. destruct Hw as [_ Hw1]. destruct (IHs Hs a b Hw1) as (S1 & S2 & S3).
+    rewrite fetch_compl.
+    destruct (compl_sweep_spec _ a b Hwin S1 S3) as (C1 & _ & _).
+    destruct (compl_out_wf_sorted _ a b Hwin S1 S3) as (C4 & C5).
+    pose proof (wf_win_bounds a b Hwin) as [Ba Bb].
+    split; [exact C4|]. split; [|exact C5].
+    apply Forall_forall. intros k Hk. exact (proj2 (good_gap_wf _ _ k Ba Bb (C1 k Hk))).
+  - (* Filt *)
+    cbn [wins] in Hw. destruct Hw as [_ Hw1]. destruct (IHs Hs a b Hw1) as (S1 & S2 & S3).
+    rewrite fetch_filt. split; [apply Forall_filter; exact S1|].
+    split; [apply Forall_filter; exact S2|apply sorted_start_filter; exact S3].
+  - (* Buf *)
+    apply wins_buf in Hw as [_ Hw1]. cbn [fetch].
+    apply buf_map_sok; [exact Hb|exact Ha|exact (IHs Hs _ _ Hw1)|exact (Hsafe _ _ Hw1)].
+  - (* MergeW *)
+    cbn [wins] in Hw. destruct Hw as [_ Hw1]. destruct (IHs Hs a b Hw1) as (S1 & S2 & S3).
+    destruct (fetch_mergew env s g a b) as [E _]. rewrite E.
+    destruct (mw_out_wf g _ Hg0 S1 S2) as [W C]. destruct (mw_sorted g _ Hg0 S1 S2 S3) as [So _].
+    repeat split; assumption.
+Qed.
